@@ -199,10 +199,10 @@ CLAIMS = {
              '(x+i*dx, y+j*dy) (membership iff, count, exact order; NoDup whenever every direction with more than one copy has a non-zero step); '
              'DefNet.wires / .vias list, per layer / via name in order of first use, exactly the segments / placements of all ROUTED wires in file '
              'order (special and regular nets alike; several ROUTED statements accumulate); ROW DO-BY-STEP gives (count, step) for horizontal and '
-             'vertical rows with non-negative step. Tied to the code by: per-callback correspondence (a recording subclass of DefTransformer: arguments received and value returned vs the Coq callback), per-file correspondence (elab of the tree lark builds = DefFile), text correspondence (parse_def = lark\'s tree or rejection on rendered / mutated / truncated / probe texts), lark\'s scanner tables for the 49 accept sets, the listings of every generated net, and the ground truth of generated DEF texts.',
+             'vertical rows with non-negative step. Tied to the code by: per-callback correspondence (a recording subclass of DefTransformer: arguments received and value returned vs the Coq callback), per-file correspondence (elab of the tree lark builds = DefFile), text correspondence (parse_def = lark\'s tree or rejection on rendered / mutated / truncated / probe texts), lark\'s scanner tables for the 49 accept sets, the listings of every generated net, and the ground truth of generated DEF texts. SOURCE TIE (routing): translate/gen_def_route.py is a fail-closed ast translator of DefWire.wire_points, DefWire.vias, DefNet.wires and DefNet.vias (def_file.py:14-58) onto Python values (None/int/str/tuple/list, every raising operation option-valued in evaluation order, truthiness only as `e or CONSTANT` with Python\'s rule, `p[0] or loc[0]` rejected), regenerated as Gen/DefRouteSrc.v on every run; C20_route_source_is_model proves the translated four properties equal Model/DefRoute.v on every routing statement of the domain (first point fully specified, width None / int / token text) and never raise there, C20_dnet_source_is_model composes with the callback model; the translated source is also run against 2806 real DefNet / DefWire objects (raises iff the implementation raises).',
         design_ref='5/C20',
         note='Modelled not verified (correspondence): the lexer / parser / callback transcriptions; which accept set belongs to which parser position is transcribed from lark\'s LALR table, lark\'s table construction itself is not modelled; code points >= 256 are outside the model. Modelled not verified: '
-             'DefWire.wire_points/.vias, DefNet.wires/.vias, accumulation of wiring statements, ROW branch (hand transcription of the REPAIRED code, '
+             'accumulation of wiring statements, ROW branch (hand transcription of the REPAIRED code; DefWire.wire_points/.vias and DefNet.wires/.vias are ALSO translated from the source and proved equal, trusting translate/gen_def_route.py and the pyv vocabulary Model/DefRouteSrcLib.v; '
              'finding D7). Domain: first point of a routing statement fully specified; coordinates are unsigned in text (grammar), any integer in the '
              'direct-object stream; ROW theorems require step >= 0 and one count = 1 (C20_row_negative_step_refuted). Not covered: pins with several '
              'PORT/LAYER groups, a comment directly after "via ORIENT " with a single blank, via names that look like an orientation.'),
@@ -257,7 +257,7 @@ CLAIMS = {
              '(line = position of the named pin in the cell; "(posedge P)"/"(negedge P)" -> that input polarity only; one triple -> both output '
              'polarities; "()" and empty components -> 0; dataset axis first), every other slot is 0; interconnects likewise on the input line of the '
              'single-output fork between the two pins, broadcast over axis 2. The statement about grouping is FALSE for the pinned code (dict(...) keeps '
-             'only the last block of an instance, D6; witness theorem C14_cells_lost_refuted); it holds for the code with the proposed 3-line fix.',
+             'only the last block of an instance, D6; witness theorem C14_cells_lost_refuted); it holds for the code with the proposed 3-line fix. SOURCE TIE (callbacks): translate/gen_sdf_callbacks.py translates SdfTransformer.triple / sanitize / interconnect / iopath from the current source (fail closed; namedtuple field count read from the source) as Gen/SdfCallbacksSrc.v on every run; C14_callbacks_source_is_model proves them equal to triple_cb / entry_cb of Model/Sdf.v for every argument list (one triple duplicated; 0 or >= 3 triples raise), and the translated code is run against the real callbacks on lark Tokens.',
         design_ref='5/C14',
         note='Modelled not verified: the behaviour of lark on this one grammar is transcribed and compared, not derived; float() is modelled for decimals denoting k/8 with at most 15 digits; numpy broadcasting, verilog.parse. Supported subset: '
              'non-negative delays (the skip test max(max(delvals))==0 drops e.g. "(0:0:0) (-1:0:0)"; for non-negative delays it drops exactly the all-zero '
